@@ -39,5 +39,51 @@ def run(F, tier, res):
         res.violate('TOTAL', 'no-total-handler', 'no handler claims every line it is offered: a line can be claimed by nobody and be dropped')
     res.rule('C01.EOF', N['summary']['exit_states'], 10, 'abstract exit states of consume; all buffers empty in each')
     res.rule('C01.states', N['summary']['loop_head_states'], 100, 'abstract loop-head states x line classes explored (mode N): %d x %d' % (N['summary']['loop_head_states'], N['summary']['classes']))
+    # ---------- ARM (MIR rule): for plain `diff -u` input delta counts the old-side lines still to come in the hunk, to tell a removed line
+    # `-- x` (shown as `--- x`) from the next file header. The count must be armed from the `@@` line before the next line is read, i.e.
+    # inside the call tree of the handler that captures the hunk header: the very first line of the hunk is already offered to the
+    # file-header recogniser, and with a stale count it is taken for a header and the hunk is skipped.
+    from .. import rules as Ru
+    from ..facts import callee_of
+    SM, CNT = 'delta::StateMachine', 'minus_line_counter'
+
+    def arming_sites(fn, depth=0):
+        out = []
+        if fn not in F.fn_bodies or depth > 2:
+            return out
+        for (bb, chain, kind, payload) in Ru.field_writes(F, fn, None, CNT):
+            if kind != 'assign':
+                continue
+            v = payload[2]
+            rts = F.trace(fn, v[1]) if v[0] == 'use' else []
+            if any(r[0] == 'call' and r[4]['args'] and not r[1].endswith(('::clone', '::default')) for r in rts):
+                out.append(bb)
+        for i, c in F.calls(fn):
+            q = callee_of(c) if callee_of(c) in F.fn_bodies else (c.get('resolved') or '')
+            if q in F.fn_bodies and q != fn and 'StateMachine' in ' '.join(F.bodies[q]['mir']['locals'][1:2]) and arming_sites(q, depth + 1):
+                out.append(i)
+        return out
+    has_counter = any(Ru.field_writes(F, p, None, CNT) for p in F.fn_bodies)
+    na = oka = 0
+    if has_counter:
+        for p in sorted(F.fn_bodies):
+            caps = []
+            for (bb, chain, kind, payload) in Ru.field_writes(F, p, SM, 'state'):
+                if kind != 'assign':
+                    continue
+                v = payload[2]
+                rts = F.trace(p, v[1]) if v[0] == 'use' else ([('agg', v[1])] if v[0] == 'agg' else [])
+                if any(r[0] == 'agg' and r[1][0] == 'adt' and r[1][1] == 'delta::State' and r[1][3] == 'HunkHeader' for r in rts):
+                    caps.append(bb)
+            if not caps or p.endswith('::clone'):
+                continue
+            na += 1
+            if arming_sites(p):
+                oka += 1
+            else:
+                res.violate('ARM', 'fn=%s' % p, 'the handler that captures a hunk header does not arm the count of old-side lines to come (minus_line_counter) from that header: '
+                            'when it is armed later (or not at all) the first line of a `diff -u` hunk, if it reads `--- x`, is taken for a file header and the hunk is dropped',
+                            where=F.bodies[p]['mir']['span']['at'])
+        res.rule('C01.ARM', na, 1, 'functions storing State::HunkHeader: each arms minus_line_counter from the header (directly or in a state-machine helper)', discharged=oka)
     E.evidence(res, R)
     return res
